@@ -779,6 +779,84 @@ func genC01(tier string, rng *Rng) {
 	runC01("nil-state-element", one(&rwp.InboundMessage{States: []*rwp.HWCState{nil}}))
 	runC01("nil-register-element", one(&rwp.InboundMessage{Registers: []*rwp.Register{{Reg: 0, Id: "A", Value: 1}, nil}}))
 
+	// (iv-b) submission order WITHIN one call: the same component written two or three times (same
+	// kind of state, or different kinds) with a clearing command / another command / a register /
+	// a write to another component / nothing in between, in one message and spread over several
+	// (seed C01-6: lines for one target coalesced in place - only visible around a Clear)
+	{
+		kindOf := func(k int, v int) *rwp.HWCState {
+			st := &rwp.HWCState{}
+			switch k {
+			case 0:
+				st.HWCMode = &rwp.HWCMode{State: rwp.HWCMode_StateE(v%5 + 1), BlinkPattern: uint32(v % 3)}
+			case 1:
+				st.HWCColor = &rwp.HWCColor{ColorIndex: &rwp.ColorIndex{Index: rwp.ColorIndex_Colors(v%17 + 1)}}
+			case 2:
+				st.HWCExtended = &rwp.HWCExtended{Interpretation: rwp.HWCExtended_InterpretationE(v%4 + 1), Value: uint32(100*v + 7)}
+			case 3:
+				st.HWCText = &rwp.HWCText{Title: fmt.Sprintf("T%d", v), Formatting: 7, Textline1: fmt.Sprintf("L%d", v)}
+			case 4:
+				st.HWCGfx = rng.Gfx(3 + v)
+			default:
+				st.PublishRawADCValues = &rwp.PublishRawADCValues{Enabled: v%2 == 0}
+			}
+			return st
+		}
+		between := func(b int) []*rwp.InboundMessage {
+			switch b {
+			case 0:
+				return one(&rwp.InboundMessage{Command: &rwp.Command{ClearAll: true}})
+			case 1:
+				return one(&rwp.InboundMessage{Command: &rwp.Command{ClearLEDs: true}})
+			case 2:
+				return one(&rwp.InboundMessage{Command: &rwp.Command{ClearDisplays: true}})
+			case 3:
+				return one(&rwp.InboundMessage{Command: &rwp.Command{SendPanelInfo: true}})
+			case 4:
+				return one(&rwp.InboundMessage{Registers: []*rwp.Register{{Reg: 0, Id: "A", Value: 5}}})
+			case 5:
+				return one(stMsg(&rwp.HWCState{HWCIDs: []uint32{99}, HWCMode: &rwp.HWCMode{State: 2}}))
+			case 6:
+				return one(&rwp.InboundMessage{FlowMessage: rwp.InboundMessage_PING})
+			}
+			return nil
+		}
+		for k1 := 0; k1 < 6; k1++ {
+			for k2 := 0; k2 < 6; k2++ {
+				for b := 0; b < 8; b++ {
+					if scale == 1 && k1 != k2 && b > 2 && (k1+k2+b)%3 != 0 {
+						continue
+					}
+					a, c := kindOf(k1, 1), kindOf(k2, 2)
+					a.HWCIDs, c.HWCIDs = []uint32{12}, []uint32{12}
+					if (k1+k2+b)%4 == 1 {
+						a.HWCIDs, c.HWCIDs = []uint32{5, 12}, []uint32{12, 6}
+					}
+					ms := append(one(stMsg(a)), between(b)...)
+					ms = append(ms, stMsg(c))
+					runC01("rewrite-3msg", ms)
+					// three writes, the command after the second
+					d := kindOf(k1, 3)
+					d.HWCIDs = []uint32{12}
+					runC01("rewrite-4msg", append(append(append(one(stMsg(a)), stMsg(c)), between(b)...), stMsg(d)))
+					if b == 7 { // both writes in ONE message (two states)
+						runC01("rewrite-1msg", one(stMsg(a, c)))
+					}
+				}
+			}
+		}
+		// the clearing command in the SAME message as the state (commands come first in a message)
+		for k1 := 0; k1 < 6; k1++ {
+			for b := 0; b < 3; b++ {
+				a, c := kindOf(k1, 1), kindOf(k1, 2)
+				a.HWCIDs, c.HWCIDs = []uint32{12}, []uint32{12}
+				m := between(b)[0]
+				m.States = []*rwp.HWCState{c}
+				runC01("rewrite-cmd-in-msg", []*rwp.InboundMessage{stMsg(a), m})
+			}
+		}
+	}
+
 	// (v) random whole messages, 1-6 per call
 	for i := 0; i < 6000*scale; i++ {
 		n := 1 + rng.Intn(6)
